@@ -373,8 +373,8 @@ impl FwProp for C07 {
     }
     fn n_cases(&self, tier: Tier) -> u64 {
         match tier {
-            Tier::Quick => 80_000,
-            Tier::Thorough => 2_000_000,
+            Tier::Quick => 300_000,
+            Tier::Thorough => 6_000_000,
         }
     }
     fn generate(&self, g: &mut Gen, _tier: Tier, stats: &mut Stats) -> FwCase {
@@ -662,8 +662,8 @@ impl FwProp for C08 {
     }
     fn n_cases(&self, tier: Tier) -> u64 {
         match tier {
-            Tier::Quick => 80_000,
-            Tier::Thorough => 2_000_000,
+            Tier::Quick => 300_000,
+            Tier::Thorough => 6_000_000,
         }
     }
     fn generate(&self, g: &mut Gen, _tier: Tier, stats: &mut Stats) -> FwCase {
@@ -859,8 +859,8 @@ impl FwProp for C09 {
     }
     fn n_cases(&self, tier: Tier) -> u64 {
         match tier {
-            Tier::Quick => 80_000,
-            Tier::Thorough => 2_000_000,
+            Tier::Quick => 300_000,
+            Tier::Thorough => 6_000_000,
         }
     }
     fn generate(&self, g: &mut Gen, _tier: Tier, stats: &mut Stats) -> FwCase {
@@ -1009,8 +1009,8 @@ impl FwProp for C10 {
     }
     fn n_cases(&self, tier: Tier) -> u64 {
         match tier {
-            Tier::Quick => 60_000,
-            Tier::Thorough => 1_500_000,
+            Tier::Quick => 300_000,
+            Tier::Thorough => 5_000_000,
         }
     }
     fn generate(&self, g: &mut Gen, _tier: Tier, stats: &mut Stats) -> FwCase {
